@@ -147,6 +147,20 @@ impl State {
     }
 }
 
+#[cfg(rust_cc_verif)]
+impl State {
+    #[allow(unused_variables)]
+    pub(crate) fn verif_new(collecting: bool, finalizing: bool, dropping: bool, allocated_bytes: usize) -> Self {
+        let s = Self::new();
+        s.collecting.set(collecting);
+        #[cfg(feature = "finalization")]
+        s.finalizing.set(finalizing);
+        s.dropping.set(dropping);
+        s.allocated_bytes.set(allocated_bytes);
+        s
+    }
+}
+
 impl Default for State {
     #[inline]
     fn default() -> Self {
